@@ -1631,8 +1631,8 @@ def enum_mappings():
     return out
 
 
-QUICK = [("manifest", 2400, 600), ("taglist", 1200, 400), ("mapping", 1500, 500), ("mapseq", 1200, 400), ("tagseq", 1000, 500), ("manseq", 800, 400), ("srvfile", 800, 400), ("createdeps", 48, 16), ("remap", 1600, 400),
-         ("server", 1000, 500)]
+QUICK = [("manifest", 2000, 500), ("taglist", 1000, 500), ("mapping", 1200, 400), ("mapseq", 1000, 500), ("tagseq", 800, 400),
+         ("manseq", 600, 300), ("srvfile", 600, 300), ("createdeps", 32, 16), ("remap", 1300, 450), ("server", 800, 400)]
 THOROUGH = [("manifest", 60000, 600), ("taglist", 30000, 600), ("mapping", 40000, 600), ("mapseq", 30000, 600), ("tagseq", 30000, 600), ("manseq", 30000, 600), ("srvfile", 20000, 600), ("createdeps", 2000, 48),
             ("remap", 40000, 600), ("server", 25000, 600)]
 
@@ -1667,7 +1667,7 @@ def check_floors(ctx):
         raise common.InfraError("degenerate distribution: manifest sequences: %d reorderings, %d reads into the live manifest, %d "
                                 "getDependency hits" % (h.get("manseq:order-changed", 0), h.get("manseq:read-into-live-manifest", 0),
                                                         h.get("manseq:getdep-found", 0)))
-    if h.get("createdeps:three-or-more-products-listed", 0) < 10:
+    if h.get("createdeps:three-or-more-products-listed", 0) < 6:
         raise common.InfraError("degenerate distribution: %d dependency manifests with three or more products"
                                 % h.get("createdeps:three-or-more-products-listed", 0))
     if h.get("srvfile:destination-reused-for-another-source", 0) < 100:
